@@ -212,6 +212,48 @@ def gen_settings(rng, max_pto=2, allow_n3lo=False, cheap=False):
         th["XIF"] = rng.choice([2.0, 0.5, 1.0])
     if rng.random() < 0.1:
         th["CKM"] = [0.97428, 0.2253, 0.00347, 0.2252, 0.97345, 0.041, 0.00862, 0.0403, 0.999152]
+    # rare but documented values of keys that the draws above leave at their usual setting: a random
+    # generator that never produces them is blind to anything that special-cases them (adversarial seeded
+    # change c20-positivity-all-normalised-in-echo: NCPositivityCharge "all", used by the repository's own
+    # positivity cards, was never generated)
+    if rng.random() < 0.3:
+        for _ in range(rng.randint(1, 2)):
+            tweak = rng.choice(["pos", "pol", "propcorr", "ktthr", "mt", "origin", "maxnf", "hq", "icib", "ckmspace",
+                                "degmax", "twonodes", "kthr_fonll"])
+            if tweak == "pos" and proc != "CC":
+                ob["NCPositivityCharge"] = rng.choice(["all", "all", "strange", "charm", "bottom"])
+            elif tweak == "pol":
+                ob["PolarizationDIS"] = rng.choice([1.0, -1.0, 1, 0])
+            elif tweak == "propcorr":
+                ob["PropagatorCorrection"] = rng.choice([0.05, -0.02])
+            elif tweak == "ktthr":
+                th["ktThr"] = rng.choice([0.5, 2.0])
+            elif tweak == "mt":
+                th["mt"] = rng.choice([14.0, 20.0, 173.0])  # 14² = 196 is inside the Q² pools
+            elif tweak == "origin":
+                th["Q0"] = rng.choice([1.0, 2.0, 5.0])
+                th["nf0"] = rng.choice([3, 4])
+            elif tweak == "maxnf":
+                th["MaxNfPdf"] = rng.choice([3, 4, 5])
+            elif tweak == "hq":
+                th["HQ"] = rng.choice(["MSBAR", "POLE"])
+            elif tweak == "icib":
+                th["IC"] = rng.choice([0, 1])
+                th["IB"] = rng.choice([0, 1])
+            elif tweak == "ckmspace" and isinstance(th["CKM"], str):
+                th["CKM"] = "  ".join(th["CKM"].split()) + " "
+            elif tweak == "degmax":
+                ob["interpolation_polynomial_degree"] = len(ob["interpolation_xgrid"]) - 1
+            elif tweak == "twonodes" and pto <= 1:
+                ob["interpolation_xgrid"] = [0.05, 1.0]
+                ob["interpolation_is_log"] = rng.choice([True, False])
+                ob["interpolation_polynomial_degree"] = 1
+            elif tweak == "kthr_fonll":
+                th["kcThr"] = rng.choice([1.0, 1.5, 2.0])
+                th["kbThr"] = rng.choice([1.0, 0.7, 2.0])
+                if rng.random() < 0.5:
+                    th["FNS"] = rng.choice(["FONLL-FFNS", "FONLL-FFN0", "FFNS"])
+                    th["NfFF"] = 5
     # optional keys may simply be absent (the runner falls back to defaults for these)
     for k in ("MZ", "SIN2TW"):
         if rng.random() < 0.12:
@@ -446,3 +488,19 @@ def sv_cost(th, ob, jit):
     n = len(ob["interpolation_xgrid"])
     c = {1: 0.15, 2: 1.6, 3: 6.0}[pto] * (n / 8.0) ** 2
     return c / (6.0 if jit else 1.0)
+
+
+HUGE_GRID = [0.05, 0.4, 1.0]
+
+
+def huge_points(rng, n, xs=False):
+    """n kinematic points for the rare *huge* runs (more than 256 per observable: the size at which
+    CPython stops sharing small-int objects, 8-bit counters wrap, etc.); cheap because they are only
+    used at leading order on a three-node grid."""
+    xsv = [round(0.06 + 0.0225 * k, 4) for k in range(40)]
+    q2v = [2.0, 5.0, 10.0, 30.0, 90.0, 250.0, 1000.0, 17.5]
+    pts = []
+    for _ in range(n):
+        pts.append(make_point(rng, rng.choice(xsv), rng.choice(q2v), rng.choice([0.2, 0.5, 0.9]) if xs else None,
+                              order=["x", "y", "Q2"] if xs else ["x", "Q2"]))
+    return pts
